@@ -404,7 +404,18 @@ func (c *UDPConn) setDeadline(t time.Time, which int) error {
 func (c *UDPConn) SetDeadline(t time.Time) error      { return c.setDeadline(t, 3) }
 func (c *UDPConn) SetReadDeadline(t time.Time) error  { return c.setDeadline(t, 1) }
 func (c *UDPConn) SetWriteDeadline(t time.Time) error { return c.setDeadline(t, 2) }
-func (c *UDPConn) SetReadBuffer(n int) error          { return nil }
+func (c *UDPConn) SetReadBuffer(n int) error {
+	if !c.ok() {
+		return syscall.EINVAL
+	}
+	c.sync()
+	raceDisable()
+	p := post(current(), &req{kind: rSetBuf, sock: c.k, n: n})
+	err := p.err.toErr("udp", nil, udpAddr(c.k.local))
+	raceEnable()
+	c.sync()
+	return err
+}
 func (c *UDPConn) SetWriteBuffer(n int) error         { return nil }
 
 func (c *UDPConn) LocalAddr() net.Addr {
